@@ -64,7 +64,11 @@ RULE = ("arrangements = multisets of n protoclusters, each a core of 1..k grid c
         "cells of a line and of a ring, x the defining-gene sharing patterns that the cores "
         "allow (for n <= 3 every subset of pairs; for n = 4 none, all, every 3-pair chain over the 4 "
         "protoclusters, and every single pair when at most 3 pairs are possible; n = 4 uses sets of "
-        "distinct shapes); every arrangement "
+        "distinct shapes); plus a ties family: a host pair with overlapping cores (hybrid or "
+        "interleaved) and 2 guests whose cores begin exactly at the first cell / end exactly at the "
+        "last cell of the host's core span, fill it or sit inside it, with equal or different "
+        "neighbourhoods (identical full starts and ends, identical guests), at the contig ends, "
+        "inside, and before/after/across the origin; every arrangement "
         "is supplied in one order per distinct sorted protocluster list that add_protocluster can "
         "build from it (ties between identical extents) "
         "and in every order when the ordering is inconsistent (whole-record + origin-spanning extent); non-trivial = >= 2 protoclusters related by at least one of the three "
@@ -183,6 +187,61 @@ def _cases_of_plan(plan: Tuple[int, bool, int, Sequence[int], Sequence[int]]) ->
             yield {"L": length, "circ": circular, "protos": protos, "share": share}
 
 
+def _cell_arc(first: int, last: int, cells: int, circular: bool) -> Optional[List[int]]:
+    """[start, end] in bases of the cells first..last-1 (cell numbers may run past the ring end)."""
+    if last - first >= cells:
+        return [0, cells * CELL]
+    if not circular:
+        first, last = max(0, first), min(cells, last)
+        return [first * CELL, last * CELL] if first < last else None
+    start, end = (first % cells) * CELL, (last % cells) * CELL
+    return [start, end if end else cells * CELL]
+
+
+def _tie_cases(tier: str) -> Iterable[Dict[str, Any]]:
+    """Ties at the start and at the end of a group's span: a host pair A, B with overlapping cores
+    (sharing a defining gene -> hybrid, or not -> interleaved) whose cores span w cells from cell
+    s, and 2 (thorough: 3) guests whose cores lie inside that span and begin exactly at its first
+    cell, end exactly at its last cell, fill it, or sit in its middle; guests with equal
+    neighbourhoods have identical full starts/ends too, identical guests are included.  Lines (span
+    at the contig start, inside, at the contig end) and rings (span before, after and across the
+    origin)."""
+    quick = tier == "quick"
+    cells = 8
+    hosts = [((0, 2), (1, 3)), ((0, 3), (1, 2)), ((0, 2), (1, 4))]          # cores of A and B
+    host_margins = [(0, 0), (1, 1)] if quick else [(0, 0), (1, 1), (0, 2), (2, 1)]
+    guest_margins = (0, 1) if quick else (0, 1, 2)
+    for circular in (False, True):
+        positions = ((0, 1, 4) if quick else (0, 1, 2, 4)) if not circular else \
+            ((0, 3, 6, 7) if quick else tuple(range(cells)))
+        for start in positions:
+            for core_a, core_b in hosts:
+                width = max(core_a[1], core_b[1])
+                if not circular and start + width > cells:
+                    continue
+                guest_cores = [(0, 1), (0, 2), (width - 1, width), (width - 2, width), (0, width), (1, 2)]
+                guests = []
+                for lo, hi in guest_cores:
+                    for margin in guest_margins:
+                        guest = (lo, hi, margin)
+                        if guest not in guests:
+                            guests.append(guest)
+                for margin_a, margin_b in host_margins:
+                    base = []
+                    for (lo, hi), margin in ((core_a, margin_a), (core_b, margin_b)):
+                        base.append([_cell_arc(start + lo, start + hi, cells, circular),
+                                     _cell_arc(start + lo - margin, start + hi + margin, cells, circular)])
+                    for chosen in itertools.combinations_with_replacement(guests, 2 if quick else 3):
+                        protos = [list(p) for p in base]
+                        for lo, hi, margin in chosen:
+                            protos.append([_cell_arc(start + lo, start + hi, cells, circular),
+                                           _cell_arc(start + lo - margin, start + hi + margin, cells, circular)])
+                        if any(spans_origin(core) and extent == [0, cells * CELL] for core, extent in protos):
+                            continue
+                        for share in ([[0, 1]], []):
+                            yield {"L": cells * CELL, "circ": circular, "protos": protos, "share": share}
+
+
 # ---------------------------------------------------------------------------------------------
 # sharding
 # ---------------------------------------------------------------------------------------------
@@ -209,6 +268,12 @@ def run_shard(shard: Dict[str, Any], run: Any) -> None:
                     return
                 _check_case(run, case)
             position += 1
+    for case in _tie_cases(shard["tier"]):
+        if position % shard["of"] == shard["index"]:
+            if run.out_of_time():
+                return
+            _check_case(run, case)
+        position += 1
 
 
 def _run_random(run: Any) -> None:
@@ -602,121 +667,12 @@ def _is_promotion(clause: str, case: Dict[str, Any]) -> bool:
     return False
 
 
-def _single_pass_merge_fails(groups: Sequence[Set[int]], min_start: Sequence[int]) -> bool:
-    """Model of the pinned `_merge_sets`: the groups are ordered by the smallest location start
-    of their members and merged in ONE pass (a group absorbed by an earlier one is emptied and
-    cannot pull in the groups it overlaps).  True if, for some order of the groups with equal
-    keys, groups that share a member are left unmerged."""
-    keyed = sorted(groups, key=lambda group: min(min_start[i] for i in group))
-    blocks: List[List[Set[int]]] = []
-    for _, block in itertools.groupby(keyed, key=lambda group: min(min_start[i] for i in group)):
-        blocks.append(list(block))
-    for choice in itertools.islice(itertools.product(*[itertools.permutations(block) for block in blocks]), 720):
-        ordered = [set(group) for block in choice for group in block]
-        for index, first in enumerate(ordered[:-1]):
-            if not first:
-                continue
-            for second in ordered[index + 1:]:
-                if not first.isdisjoint(second):
-                    first.update(second)
-                    second.clear()
-        seen: Set[int] = set()
-        for group in ordered:
-            if seen & group:
-                return True
-            seen |= group
-    return False
-
-
-def _hybrid_merge_fails(case: Dict[str, Any], min_start: Sequence[int]) -> bool:
-    """The sharing pairs in the order the pinned `_find_hybrids` produces them (protoclusters by
-    extent, then stably by core start/end; pairs i < j; the first/last pair once more), merged by
-    the single-pass model."""
-    shared = set(_declared_sharing(case))
-    if len(shared) < 3:
-        return False
-    length = case["L"]
-
-    def extent_key(index: int) -> Tuple[int, int, int]:
-        start, end = case["protos"][index][1]
-        if start >= end:
-            return (start - length, -(length - start + end), index)
-        return (start, -(end - start), index)
-
-    def core_key(index: int) -> Tuple[int, int]:
-        start, end = case["protos"][index][0]
-        return (0, length) if start >= end else (start, end)
-
-    base = sorted(sorted(range(len(case["protos"])), key=extent_key), key=core_key)
-    # protoclusters with identical extent and core bounds tie: their order follows the supply order
-    blocks: List[List[int]] = []
-    for index in base:
-        if blocks and extent_key(blocks[-1][0])[:2] == extent_key(index)[:2] and \
-                core_key(blocks[-1][0]) == core_key(index):
-            blocks[-1].append(index)
-        else:
-            blocks.append([index])
-    for choice in itertools.islice(itertools.product(*[itertools.permutations(b) for b in blocks]), 48):
-        order = [index for block in choice for index in block]
-        pairs = [{a, b} for position, a in enumerate(order) for b in order[position + 1:]
-                 if (min(a, b), max(a, b)) in shared]
-        if (min(order[0], order[-1]), max(order[0], order[-1])) in shared:
-            pairs.append({order[0], order[-1]})
-        ordered = sorted((set(pair) for pair in pairs), key=lambda group: min(min_start[i] for i in group))
-        for index, first in enumerate(ordered[:-1]):
-            if not first:
-                continue
-            for second in ordered[index + 1:]:
-                if not first.isdisjoint(second):
-                    first.update(second)
-                    second.clear()
-        seen: Set[int] = set()
-        for group in ordered:
-            if seen & group:
-                return True
-            seen |= group
-    return False
-
-
 def _strong_nodes(expectation: "Expectation") -> List[Set[int]]:
     """The units the later passes work with: every core-overlap group (it becomes a hybrid or an
     interleaved candidate) and every remaining protocluster on its own."""
     nodes = [set(group) for group in expectation.core_groups]
     absorbed = {i for group in nodes for i in group}
     return nodes + [{i} for i in range(expectation.count) if i not in absorbed]
-
-
-def _is_merge(clause: str, case: Dict[str, Any]) -> bool:
-    """F2: the single-pass `_merge_sets` leaves groups with a common member unmerged: sharing
-    pairs (hybrids), core-overlap pairs with hybrids as units (interleaved), extent-overlap pairs
-    of candidates/singles (neighbouring); later kinds inherit the split groups."""
-    clause = _plain(clause)
-    if clause not in ("hybrid-groups-exact", "interleaved-groups-exact", "neighbouring-groups-exact"):
-        return False
-    expectation, _ = _group_levels(case)
-    count = expectation.count
-    min_start = [0 if spans_origin(extent) else extent[0] for _, extent in case["protos"]]
-    if _hybrid_merge_fails(case, min_start):
-        return True
-    if clause == "hybrid-groups-exact":
-        return False
-    if count <= 4 and not (case["circ"] and any(spans_origin(extent) for _, extent in case["protos"])):
-        return False      # up to 4 intervals on a line, ordered by start, always merge correctly
-    unit = {}
-    for must, may in expectation.hybrids:
-        for i in must:
-            unit[i] = frozenset(must)
-    cores = [set(unit.get(i, {i})) | set(unit.get(j, {j})) for i in range(count) for j in range(i + 1, count)
-             if expectation.cores[i] & expectation.cores[j] and unit.get(i, i) != unit.get(j, j)]
-    if len(cores) >= 3 and _single_pass_merge_fails(cores, min_start):
-        return True
-    if clause == "interleaved-groups-exact":
-        return False
-    nodes = _strong_nodes(expectation)
-    masks = [_union(expectation.extents, node) for node in nodes]
-    extents = [nodes[a] | nodes[b] for a in range(len(nodes)) for b in range(a + 1, len(nodes))
-               if masks[a] & masks[b]]
-    return len(extents) >= 3 and _single_pass_merge_fails(extents, min_start)
 
 
 def _is_bridging(clause: str, case: Dict[str, Any]) -> bool:
@@ -760,22 +716,6 @@ def _pinned_span(arcs: Sequence[Sequence[int]], length: int) -> int:
     return arc_mask([pre_start, post_end], length)
 
 
-def _pinned_whole_record(arcs: Sequence[Sequence[int]], length: int) -> bool:
-    """True when the pinned connect_locations gives the one-part location [0:length) for these
-    chained arcs (a span that merely happens to cover every base stays a two-part location)."""
-    if not any(spans_origin(arc) for arc in arcs):
-        return min(a[0] for a in arcs) == 0 and max(a[1] for a in arcs) == length
-    pre_start, post_end = length, 0
-    for start, end in arcs:
-        if start >= end:
-            pre_start, post_end = min(pre_start, start), max(post_end, end)
-        elif start < length - end:
-            post_end = max(post_end, end)
-        else:
-            pre_start = min(pre_start, start)
-    return pre_start < post_end or pre_start == 0 or post_end == length
-
-
 def _over_covered(case: Dict[str, Any]) -> bool:
     """Ring; some chained set of extents containing an origin-spanning one for which the pinned
     connect_locations returns the whole record although the span is smaller."""
@@ -807,12 +747,12 @@ def _pinned_location(case: Dict[str, Any], members: Iterable[int]) -> int:
 
 def _is_over_cover(clause: str, case: Dict[str, Any]) -> bool:
     """F4: a candidate on a ring is given the whole record as location although the span of its
-    members is smaller (connect_locations, see C06-F2).  location-is-span-of-members and
-    singles-exact: some chained set of extents is inflated that way; kind clauses: the inflated
+    members is smaller (connect_locations, see C06-F2).  location-is-span-of-members: some chained
+    set of extents is inflated that way; kind clauses: the inflated
     location of a weaker group coincides with the location of a stronger group it contains, which
     triggers the coordinate-keyed folding of C05-F1 although the true spans differ."""
     clause = _plain(clause)
-    if clause in ("location-is-span-of-members", "singles-exact"):
+    if clause == "location-is-span-of-members":
         return _over_covered(case)
     if clause not in KIND_CLAUSE.values() or not case["circ"]:
         return False
@@ -829,30 +769,6 @@ def _is_over_cover(clause: str, case: Dict[str, Any]) -> bool:
                     _pinned_location(case, other) == _pinned_location(case, members) and \
                     _union(expectation.extents, other) != true_span:
                 return True
-    return False
-
-
-def _is_single_key(clause: str, case: Dict[str, Any]) -> bool:
-    """F5: singles of an origin-spanning protocluster: the pinned code looks the parent candidate
-    up under (location.start, location.end) = (0, L) for such a protocluster, so a single with
-    the coordinates of its parent candidate is kept, and a single is dropped whenever a candidate
-    covering the whole record contains the protocluster."""
-    if _plain(clause) != "singles-exact" or not case["circ"]:
-        return False
-    expectation, groups = _group_levels(case)
-    absorbed = {i for group in expectation.core_groups for i in group}
-    for index, (_, extent) in enumerate(case["protos"]):
-        if index in absorbed or not spans_origin(extent):
-            continue
-        others = [i for i in range(expectation.count) if i != index
-                  and expectation.extents[i] & ~expectation.extents[index] == 0]
-        if others:
-            return True                   # a candidate made of it and protoclusters inside it has
-                                          # identical coordinates, yet the single is kept
-        for _, members in groups:
-            if index in members and \
-                    _pinned_whole_record([case["protos"][i][1] for i in members], case["L"]):
-                return True               # a [0:L) candidate: the single is dropped
     return False
 
 
@@ -903,22 +819,11 @@ def _is_bisect_window(clause: str, case: Dict[str, Any]) -> bool:
     return strong >= 3 and leftover >= 1
 
 
-def _is_tie_order(clause: str, case: Dict[str, Any]) -> bool:
-    """F9: order-independent with >= 5 protoclusters of which two have identical extents (a tie in
-    the record's ordering, resolved by the order of supply) and some defining genes are shared:
-    which sharing pairs the single-pass merge (C05-F2) joins, and which of the tied protoclusters is
-    folded into a candidate (C05-F1), depends on the tie order."""
-    if _plain(clause) != "order-independent" or len(case["protos"]) < 5 or not case["share"]:
-        return False
-    extents = [tuple(extent) for _, extent in case["protos"]]
-    return len(set(extents)) < len(extents)
-
-
 def _is_compound(clause: str, case: Dict[str, Any]) -> bool:
-    """F10: >= 5 protoclusters (beyond the bound up to which F1-F9 were delimited clause by
-    clause): the defects compound - a split or folded group changes what every later pass sees -
+    """F10: >= 5 protoclusters (beyond the bound up to which the open findings were delimited
+    clause by clause): the defects compound - a folded group changes what every later pass sees -
     so for the kind clauses, singles-exact and order-independent the class is only "the input
-    shows the feature of at least one of F1-F9 (for whatever clause), or has two or more share
+    shows the feature of at least one of F1, F3, F4, F6, F7, F8 (for whatever clause), or has two or more share
     groups, or - on a ring - a share group together with an origin-crossing core"."""
     plain = _plain(clause)
     if len(case["protos"]) < 5 or plain not in list(KIND_CLAUSE.values()) + ["singles-exact", "order-independent"]:
@@ -929,22 +834,21 @@ def _is_compound(clause: str, case: Dict[str, Any]) -> bool:
         return True       # two or more chemical hybrids interacting (folding, mutual containment)
     if case["circ"] and case["share"] and any(spans_origin(core) for core, _ in case["protos"]):
         return True       # the cross-origin interleaved pass working on hybrids (cf. C05-F6)
-    for predicate in (_is_promotion, _is_merge, _is_bridging, _is_over_cover, _is_single_key,
+    for predicate in (_is_promotion, _is_bridging, _is_over_cover,
                       _is_cross_origin_subset, _is_whole_ring_core, _is_bisect_window):
         if any(predicate(probe, case) for probe in probes):
             return True
     return False
 
 
+# C05-F2 (single-pass _merge_sets), C05-F5 (singles looked up under (0, L)) and C05-F9 (tie order
+# deciding the merge) are repaired in /repo and have no class any more: a recurrence is reported.
 FINDING_CLASSES = {
     "C05-F1": _is_promotion,
-    "C05-F2": _is_merge,
     "C05-F3": _is_bridging,
     "C05-F4": _is_over_cover,
-    "C05-F5": _is_single_key,
     "C05-F6": _is_cross_origin_subset,
     "C05-F7": _is_whole_ring_core,
     "C05-F8": _is_bisect_window,
-    "C05-F9": _is_tie_order,
     "C05-F10": _is_compound,
 }
